@@ -317,6 +317,21 @@ def forward_value_uses(body, local, depth=6):
                 if rv["k"] in ("use", "cast") and not node["lhs"][1]:
                     work.append((node["lhs"][0], cast or rv["k"] == "cast", d - 1))
                     continue
+                if rv["k"] == "aggr" and rv.get("ak") == "tuple" and not node["lhs"][1]:
+                    # `let (a, b) = (x, y);`: the value travels through component k of a temporary tuple
+                    ks = [k for k, o in enumerate(rv["ops"]) if (op_place(o) or (None,))[0] == l and not (op_place(o) or (0, ()))[1]]
+                    tl = node["lhs"][0]
+                    moved = False
+                    for k in ks:
+                        for b2, i2, s2 in body.all_stmts():
+                            rv2 = s2.get("rv") or {}
+                            if "lhs" in s2 and not s2["lhs"][1] and rv2.get("k") in ("use", "cast"):
+                                pl2 = op_place(rv2.get("op"))
+                                if pl2 is not None and pl2[0] == tl and tuple(pl2[1]) == (f".{k}",):
+                                    work.append((s2["lhs"][0], cast or rv2["k"] == "cast", d - 1))
+                                    moved = True
+                    if moved:
+                        continue
             out.append((b, i, node, how, cast))
     return out
 
